@@ -1115,6 +1115,7 @@ void far_case(uint64_t idx, vh::Rng &r) {
     g_clock = 1000 + (idx >> 6) * 77;
     w.base = g_clock;
     w.note(vh::fmt("engine=%s drive=once t0=%llu:", epoll ? "epoll" : "select", (unsigned long long)g_clock));
+    w.sig.add(idx);
     w.create(0); w.init(0, d, persist); w.enable(0);
     if (with_near) { w.create(1); w.init(1, 5, false); w.enable(1); }
     auto pass = [&](uint64_t adv) { if (!w.failed) { w.check_wait(); w.once_pass(adv, false); w.check_all_enabled("pass"); w.finish_script(); } };
